@@ -324,6 +324,10 @@ def r_memo_key(ck: Checker) -> None:
                         if isinstance(lp.iter, ast.Call) and isinstance(lp.iter.func, ast.Attribute) and lp.iter.func.attr == "items" and isinstance(lp.target, ast.Tuple) and _names(lp.target.elts[0]) <= covered:
                             covered |= tnames  # the value of a dict entry is determined by its key
                 scope: ast.AST = loop
+                if isinstance(store, ast.Attribute) and unparse(store).startswith("self."):
+                    # the memo lives on the object and survives this call: what the parameters bring varies as well
+                    varying |= set(params)
+                    scope = func.node
             else:
                 varying |= set(params)
                 scope = func.node
